@@ -89,7 +89,25 @@ func main() {
 			}
 		}()
 	}
+	// cases marked solo run first, one at a time (nothing else going on in the process)
+	isSolo := func(raw json.RawMessage) bool {
+		var k struct {
+			Solo bool `json:"solo"`
+		}
+		json.Unmarshal(raw, &k)
+		return k.Solo
+	}
 	for _, j := range jobs {
+		if mode == "fault" && isSolo(j.raw) {
+			o := runFault(j.idx, j.raw, seed)
+			ob, _ := json.Marshal(o)
+			results[j.idx] = []byte(fmt.Sprintf("{\"c\":%s,\"o\":%s}\n", string(j.raw), string(ob)))
+		}
+	}
+	for _, j := range jobs {
+		if mode == "fault" && isSolo(j.raw) {
+			continue
+		}
 		ch <- j
 	}
 	close(ch)
